@@ -18,7 +18,7 @@ def vocabulary():
     return dict(keywords=kw, singles=singles, doubles=sorted(set(doubles)), builtins=names)
 
 
-LITS = ["0", "1", "2", "10", "42", "1.5", "2.", "0.25", '"a"', '""', '"x{}y"', '"é"', "a", "b", "x", "f", "teller", "_", "é",
+LITS = ['"caf\\é"', '"\\🇳x"', '"a\\', '"\\q\\é\\"', "0", "1", "2", "10", "42", "1.5", "2.", "0.25", '"a"', '""', '"x{}y"', '"é"', "a", "b", "x", "f", "teller", "_", "é",
         "99999999999999999999", "1152921504606846975", "1152921504606846976", '"\\n"', '"\\\\"', "/", "// c\n", "#", "№", '"open']
 
 
